@@ -8,7 +8,7 @@
 use clvmr::allocator::{Allocator, NodePtr, SExp};
 use clvmr::chia_dialect::ClvmFlags;
 use clvmr::error::EvalErr;
-use clvmr::more_ops::{op_ash, op_coinid, op_div, op_divmod, op_gr, op_gr_bytes, op_lognot, op_lsh, op_mod, op_modpow, op_multiply, op_substr};
+use clvmr::more_ops::{op_add, op_ash, op_coinid, op_div, op_divmod, op_gr, op_gr_bytes, op_logand, op_logior, op_lognot, op_logxor, op_lsh, op_mod, op_modpow, op_multiply, op_substr, op_subtract};
 use clvmr::number::Number;
 use clvmr::reduction::Response;
 
@@ -272,6 +272,75 @@ pub fn cost_search(_seed: u64) -> String {
                 let got = run(op_multiply, flags, &args, u64::MAX / 4);
                 if got != want {
                     return report("arith-costs", "*", flags, &args, got, want);
+                }
+            }
+        }
+        // ---- variadic accumulating operators: + - logand logior logxor --------------------------------
+        if !malachite {
+            let mut lists: Vec<Vec<Vec<u8>>> = vec![vec![]];
+            for x in ints.iter() {
+                lists.push(vec![x.clone()]);
+                for y in ints.iter() {
+                    lists.push(vec![x.clone(), y.clone()]);
+                }
+            }
+            for (i, x) in ints.iter().enumerate() {
+                let y = &ints[(i * 7 + 3) % ints.len()];
+                let z = &ints[(i * 11 + 5) % ints.len()];
+                let w = &ints[(i * 13 + 1) % ints.len()];
+                lists.push(vec![x.clone(), y.clone(), z.clone()]);
+                lists.push(vec![x.clone(), y.clone(), z.clone(), w.clone()]);
+                lists.push(vec![w.clone(), x.clone(), x.clone(), y.clone(), z.clone()]);
+            }
+            // sums that cross the u64 / i64 boundaries of the small-integer fast paths
+            for k in [vec![0x03u8, 0xff, 0xff, 0xff], vec![0x02, 0, 0, 0]] {
+                lists.push(vec![k.clone(); 70]);
+            }
+            lists.push(vec![vec![0x7f, 0xff, 0xff, 0xff, 0xff, 0xff, 0xff, 0xff], vec![1]]);
+            lists.push(vec![vec![0x80, 0, 0, 0, 0, 0, 0, 0], vec![1]]);
+            lists.push(vec![vec![0, 0xff, 0xff, 0xff, 0xff, 0xff, 0xff, 0xff, 0xff], vec![1], vec![1]]);
+            for args in lists.iter() {
+                cases += 5;
+                // + and -
+                for (name, op, sub) in [("+", op_add as Op, false), ("-", op_subtract as Op, true)] {
+                    let mut cost = 99u64;
+                    let mut total = Number::from(0);
+                    for (i, b) in args.iter().enumerate() {
+                        let l = b.len() as u64;
+                        cost += if new { 500 + 4 * l.max(limbs(&total)) } else { 320 + 3 * l };
+                        if sub && i > 0 {
+                            total -= num(b);
+                        } else {
+                            total += num(b);
+                        }
+                    }
+                    let v = enc(&total);
+                    let want = expect_ok(cost + 10 * v.len() as u64, &v);
+                    let got = run(op, flags, args, u64::MAX / 4);
+                    if got != want {
+                        return report("arith-costs", name, flags, args, got, want);
+                    }
+                }
+                // logand / logior / logxor
+                for (name, op, kind) in [("logand", op_logand as Op, 0), ("logior", op_logior as Op, 1), ("logxor", op_logxor as Op, 2)] {
+                    let mut cost = 100u64;
+                    let mut acc = if kind == 0 { Number::from(-1) } else { Number::from(0) };
+                    for b in args.iter() {
+                        let l = b.len() as u64;
+                        cost += 264 + 3 * if new { l.max(limbs(&acc)) } else { l };
+                        let x = num(b);
+                        acc = match kind {
+                            0 => &acc & &x,
+                            1 => &acc | &x,
+                            _ => &acc ^ &x,
+                        };
+                    }
+                    let v = enc(&acc);
+                    let want = expect_ok(cost + 10 * v.len() as u64, &v);
+                    let got = run(op, flags, args, u64::MAX / 4);
+                    if got != want {
+                        return report("arith-costs", name, flags, args, got, want);
+                    }
                 }
             }
         }
